@@ -236,10 +236,12 @@ var aftermathCount = map[string]int{}
 
 func aftermath(root store.Cursor) string {
 	if allRoutes {
-		// a replay: every exceptional event, then the query
+		// a replay (or a case that asks for everything): every exceptional event, each followed by every probe
 		for k := 0; k <= 6; k++ {
-			if m := aftermathEvent(root, k); m != "" {
-				return m
+			for p := range aftermathProbes {
+				if m := eventThenProbe(root, k, p); m != "" {
+					return m
+				}
 			}
 		}
 		return ""
@@ -248,7 +250,40 @@ func aftermath(root store.Cursor) string {
 	if aftermathTick%61 != 0 {
 		return ""
 	}
-	return aftermathEvent(root, (aftermathTick/61)%7)
+	n := aftermathTick / 61
+	return eventThenProbe(root, n%7, (n/7+n)%len(aftermathProbes))
+}
+
+// what a failure leaves behind is seen by the FIRST ordinary evaluation after it (a successful evaluation usually cleans
+// up): besides the family's own next query, one of these probes - a different one each time - is evaluated on the
+// family's current document right before and right after the event, and must give the same answer both times
+var aftermathProbes = []string{
+	"//*", "//*/following-sibling::node()", "//*/preceding-sibling::*[1]", "//node()/preceding::*[1]", "string(/)", "concat('x', 'y', string-length(/))",
+	"count(//node() | //@*)", "//@*/..", "substring(string(/*), 2, 3)", "//*[last()]/following::node()[1]", "sum(//*[. = number(.)])", "normalize-space(/)",
+}
+var probeExprs []*xsel.Grammar
+
+func runProbe(root store.Cursor, p int) string {
+	defer func() { recover() }()
+	if probeExprs == nil {
+		for _, t := range aftermathProbes {
+			g := xsel.MustBuildExpr(t)
+			probeExprs = append(probeExprs, &g)
+		}
+	}
+	r, err := xsel.Exec(root, probeExprs[p])
+	return projectResult(r, err)
+}
+
+func eventThenProbe(root store.Cursor, k, p int) string {
+	before := runProbe(root, p)
+	if m := aftermathEvent(root, k); m != "" {
+		return m
+	}
+	if after := runProbe(root, p); after != before {
+		return fmt.Sprintf("after exceptional event #%d (a query that failed on ANOTHER document), %s on this document gives %s; before the event it gave %s", k, aftermathProbes[p], after, before)
+	}
+	return ""
 }
 
 // the exceptional events happen on ANOTHER document (what they leave behind - cached node lists, child indexes keyed
